@@ -83,11 +83,12 @@ def make_schema(key, hostile=False):
     import py_gql
 
     if key.endswith("#sibling"):
-        ir = S.generate(random.Random(key[:-len("#sibling")]), hostile_descriptions="no-rewrap" if hostile else False)
+        ir = S.generate(random.Random(key[:-len("#sibling")]), hostile_descriptions="no-rewrap" if hostile else False,
+                        features={"variable_definition_location": True})
         sib, _changed = sibling_ir(ir)
         return sib, S.build_code_schema(sib)[0], "code"
     rng = random.Random(key)
-    ir = S.generate(rng, hostile_descriptions="no-rewrap" if hostile else False)
+    ir = S.generate(rng, hostile_descriptions="no-rewrap" if hostile else False, features={"variable_definition_location": True})
     mode = rng.choice(["code", "code", "sdl"])
     if mode == "sdl":
         from .c11 import default_nests_owner_type
